@@ -33,6 +33,7 @@ type Opts struct {
 	MapCap    int
 	AppendCap int
 	Preempt   int // bound on preemptions (-1 = unbounded)
+	Pruners   int // number of parallel pruning sessions (default 1)
 	Solver    string
 	Prune     bool
 	Race      bool
@@ -125,6 +126,13 @@ func (l *Loaded) stmtOf(pos token.Pos, isStore bool) string {
 	path, _ := astutil.PathEnclosingInterval(f, pos, pos)
 	for i := 0; i+1 < len(path); i++ {
 		if st, ok := path[i].(ast.Stmt); ok {
+			if cc, isComm := path[i+1].(*ast.CommClause); isComm && cc.Comm == st {
+				continue // the communication of a select case is evaluated by the select statement
+			}
+			switch st.(type) {
+			case *ast.CommClause, *ast.CaseClause:
+				continue // clauses are not statements of a list
+			}
 			switch path[i+1].(type) {
 			case *ast.BlockStmt, *ast.CaseClause, *ast.CommClause:
 				p := l.Fset.Position(st.Pos())
@@ -305,9 +313,18 @@ func RunLoaded(l *Loaded, o Opts) *report.Report {
 			m.Pruner = nil
 		}
 		m.Reset()
+		for _, pr := range m.Pruners {
+			pr.Close()
+		}
+		m.Pruners = nil
 		if o.Prune {
 			if pr, err := eng.NewPruner("z3"); err == nil {
 				m.Pruner = pr
+				for i := 1; i < o.Pruners; i++ {
+					if p2, err := eng.NewPruner("z3"); err == nil {
+						m.Pruners = append(m.Pruners, p2)
+					}
+				}
 			}
 		}
 		m.Round = round
@@ -329,6 +346,7 @@ func RunLoaded(l *Loaded, o Opts) *report.Report {
 		if m.Pruner != nil {
 			rep.PruneQ += m.Pruner.Queries
 			rep.Pruned += m.Pruner.Pruned
+			logf("  pruner: %d queries (%d pruned, %d unknown) %.1fs\n", m.Pruner.Queries, m.Pruner.Pruned, m.Pruner.Unknown, m.Pruner.Sec)
 		}
 		logf("round %d: terms=%d threads=%d firings=%d maxlive=%d shared=%d viol=%d (%.1fs)\n", round, m.Ctx().NumTerms(), m.NumThreads(), m.Stats.Firings, m.Stats.MaxLive, m.NumShared(), len(m.Viol), time.Since(t0).Seconds())
 		rep.Rounds = round + 1
@@ -343,6 +361,10 @@ func RunLoaded(l *Loaded, o Opts) *report.Report {
 		m.Pruner.Close()
 		m.Pruner = nil
 	}
+	for _, pr := range m.Pruners {
+		pr.Close()
+	}
+	m.Pruners = nil
 	rep.EncSec = time.Since(t0).Seconds()
 	if o.WriteHint && hintFile != "" {
 		// merge with what is there (case splits of one harness share a file)
